@@ -163,12 +163,13 @@ PROPS = {
                     "moves and explicitly constructed moves, in random histories on generated JSON models incl. tight "
                     "windows, wait limits, non-metric and time-dependent matrices, arrival-neutral detours) is executed "
                     "and must succeed; check.SolutionCheck's moves_failed is read too.",
-            "note": TB_COMMON + " The hypothetical-route iterator (solutionStopGenerator) is abstracted to the list of "
-                    "values it walks.",
+            "note": TB_COMMON + " The estimates are stated over the list of values along the new route; that the "
+                    "hypothetical-route iterator (solutionStopGenerator) yields exactly that route is itself a theorem "
+                    "(NR.StopGen, all four start/end modes, any number of inserted stops) tied by the sgen lines.",
             "technique": "Lean 4 proof (estimate/exact equivalence for Maximum, MaximumStops, Attributes) + executable-then-Execute differential on the real code",
             "design_ref": "DESIGN.md §5 C09",
         },
-        "lean_props": ["C09", "C09W", "C01"],
+        "lean_props": ["C09", "C09W", "C09G", "C01"],
         "facts": ["CheckFacts"],
         "streams": [HIST, {"name": "histw", "corpus": True}],
     },
@@ -220,8 +221,12 @@ PROPS = {
                     "(integer matrices collapsed to few distinct values → cost ties; units with several allowed "
                     "orders), seed and options, one parallel run, model rebuilt for every repetition, with and "
                     "without schedule perturbation through the verif hooks: the sequence of delivered solutions and "
-                    "the final output must be identical. Found and repaired: E5 (shared random source), E19 "
-                    "(map-ordered filing of initial units), E18 (collector lag).",
+                    "the final output must be identical — in three modes: the single solver read by a plain (optionally slow) "
+                    "consumer, the parallel solver with a restart operator that never fires, the parallel solver as shipped. "
+                    "Found and repaired: E5 (shared random source), E19 (map-ordered filing of initial units), E18 "
+                    "(collector lag). Listed: E25 (as shipped, the collector's copy and the solver's restart copy draw "
+                    "from the same best solution's random source in an order decided by the scheduler). Fact theorems "
+                    "(regenerated go-closure call table): the helper goroutines of a run call nothing that draws.",
             "note": TB_COMMON + " math/rand is an abstract stream; 'any machine load' is approximated by injected delays.",
             "technique": "Lean 4 proof (stream-splitting theorem + counterexample) + repetition differential under schedule perturbation",
             "design_ref": "DESIGN.md §5 C12",
